@@ -89,6 +89,8 @@ def run_case(case, acc):
             unrealizable.append((q, ei, si))
         # the same question in the same automaton with only the stepwise
         # form switched (same region, same initial predicates), and back
+        if len(verdicts) % 2:
+            continue    # every other combination
         p1 = bool(aut.plus_one)
         aut.plus_one = not p1
         try:
